@@ -50,12 +50,21 @@ def random_unimodular(rng, dim):
     return U
 
 
+def strong_shear(rng, dim):
+    U = np.eye(dim, dtype=int)
+    for _ in range(rng.randint(1, 2)):
+        E = np.eye(dim, dtype=int)
+        i, j = rng.sample(range(dim), 2); E[i, j] = rng.choice([-3, -2, 2, 3])
+        U = U @ E
+    return U
+
+
 def redescribe(crys, rng, kind):
     """returns (crys2, label) : same physical crystal, different description"""
     from onsager import crystal
     dim = crys.dim
-    if kind == "unimodular":
-        U = random_unimodular(rng, dim)
+    if kind in ("unimodular", "sheared"):
+        U = random_unimodular(rng, dim) if kind == "unimodular" else strong_shear(rng, dim)
         Ui = np.round(np.linalg.inv(U)).astype(int)
         basis = []
         for atoms in crys.basis:
@@ -149,18 +158,27 @@ def run(ck):
     for label, crys, chem, cut, sl, jn, d in tcommon.interstitial_pool(ck, rng, ck.n(12, 50)):
         pre, bE, preT, bET = tcommon.random_interstitial_data(nr, sl, jn)
         D = d.diffusivity(pre, bE, preT, bET)
-        for kind in ("unimodular", "supercell"):
+        for kind in ("unimodular", "sheared", "supercell"):
             try:
                 crys2, what = redescribe(crys, rng, kind)
             except Exception:
                 crys2 = None
             if crys2 is None: skipped["construct-failed"] += 1; continue
-            nexp = len(crys.G) if kind == "unimodular" else None
-            if kind == "unimodular" and len(crys2.G) != len(crys.G): skipped["group-incomplete"] += 1; continue
             try:
                 sl2 = crys2.sitelist(chem); jn2 = crys2.jumpnetwork(chem, cut)
             except Exception as e:
                 ck.violation("sitelist/jumpnetwork raised %r on a re-described crystal" % e, {"crystal": repr(crys), "redescribed": repr(crys2), "how": what}, key="c09-raise"); continue
+            # the SET of jumps within the cutoff is pure geometry: whatever symmetry group the (possibly non-reduced, strongly
+            # sheared) description found, the number of distinct jumps per primitive cell must be the same
+            ncell = int(round(abs(np.linalg.det(crys2.lattice) / np.linalg.det(crys.lattice))))
+            j1 = {(i, j, tuple(np.round(dx, 6))) for t in jn for (i, j), dx in t}
+            j2 = {(i, j, tuple(np.round(dx, 6))) for t in jn2 for (i, j), dx in t}
+            ck.case(key=("count", label, round(cut, 5), kind, what), nontrivial=True, kind="jumpcount:" + kind)
+            if len(j2) != ncell * len(j1):
+                ck.violation("re-described crystal (%s) has %d distinct jumps within the cutoff, the original %d per primitive cell (x%d cells)" % (kind, len(j2), len(j1), ncell),
+                             {"crystal": repr(crys), "chem": chem, "cutoff": cut, "redescribed": repr(crys2), "how": what}, key="c09-jump-count")
+                continue
+            if kind in ("unimodular", "sheared") and len(crys2.G) != len(crys.G): skipped["group-incomplete"] += 1; continue
             flat = sorted(i for w in sl2 for i in w)
             if flat != list(range(len(crys2.basis[chem]))):
                 # Wyckoff sets of a non-reduced cell overlap: its symmetry group lacks the pure translations (C18 known
@@ -200,7 +218,7 @@ def run(ck):
                               "pre": pre.tolist(), "betaene": bE.tolist(), "preT": preT.tolist(), "betaeneT": bET.tolist(),
                               "D": D.tolist(), "D2": D2.tolist()}, key="c09-int-" + kind)
             # exact tier (unimodular): network of description 2 mapped by (Rm = lattice-coordinate change, p = site map) is the original
-            if kind == "unimodular":
+            if kind in ("unimodular", "sheared"):
                 j1 = tcommon.unitcell_network(crys, jn); j2 = tcommon.unitcell_network(crys2, jn2)
                 if j1 is not None and j2 is not None and len(j1) <= 60:
                     Rm = np.round(crys.invlatt @ crys2.lattice).astype(int)   # dx_latt(1) = Rm dx_latt(2)
